@@ -359,18 +359,27 @@ impl<'a> Parser<'a> {
 
     /// Parse block size specification
     fn parse_block_size_spec(&mut self) -> Result<BlockSizeSpec, ESpecError> {
+        let number_start = self.pos;
         let mut size = self.parse_number()?;
+        let too_large = |position: usize| ESpecError::InvalidNumber {
+            position,
+            error: "Size too large".to_string(),
+        };
 
         // Check for unit (K or M)
         if let Some(unit) = self.peek() {
             match unit {
                 'K' => {
                     self.consume('K')?;
-                    size *= 1024;
+                    size = size
+                        .checked_mul(1024)
+                        .ok_or_else(|| too_large(number_start))?;
                 }
                 'M' => {
                     self.consume('M')?;
-                    size *= 1024 * 1024;
+                    size = size
+                        .checked_mul(1024 * 1024)
+                        .ok_or_else(|| too_large(number_start))?;
                 }
                 'G' | 'T' | 'P' => {
                     return Err(ESpecError::InvalidUnit(unit));
@@ -705,6 +714,21 @@ mod tests {
             ESpec::parse("n extra"),
             Err(ESpecError::UnexpectedChar { .. })
         ));
+    }
+
+    #[test]
+    fn test_size_overflow_is_an_error() {
+        // 2^54 K does not fit in 64 bits: used to overflow the multiplication
+        assert!(matches!(
+            ESpec::parse("b:18014398509481984K=z"),
+            Err(ESpecError::InvalidNumber { .. })
+        ));
+        assert!(matches!(
+            ESpec::parse("b:{17592186044416M*=n}"),
+            Err(ESpecError::InvalidNumber { .. })
+        ));
+        // the largest size that does fit still parses
+        assert!(ESpec::parse("b:18014398509481983K=z").is_ok());
     }
 
     #[test]
